@@ -927,6 +927,30 @@ func evalPartial(node *jparse.PartialNode, data reflect.Value, env *environment)
 		return undefined, newEvalError(ErrNonCallablePartial, node.Func, nil)
 	}
 
+	// f(?, x) is a function of its placeholders only: the other
+	// arguments are evaluated now, once, and not again (in
+	// whatever the variables hold by then) at every call.
+	// (Literals evaluate to the same value whenever they are
+	// evaluated: nothing is recorded when there are only those.)
+	var bound []reflect.Value
+	for _, arg := range node.Args {
+		switch arg.(type) {
+		case *jparse.PlaceholderNode, *jparse.NumberNode, *jparse.StringNode, *jparse.BooleanNode, *jparse.NullNode:
+			continue
+		}
+		bound = make([]reflect.Value, len(node.Args))
+		break
+	}
+	for i, arg := range node.Args {
+		if _, ok := arg.(*jparse.PlaceholderNode); ok || bound == nil {
+			continue
+		}
+		bound[i], err = eval(arg, data, env)
+		if err != nil {
+			return undefined, err
+		}
+	}
+
 	f := &partialCallable{
 		callableName: callableName{
 			name: fn.Name() + "_partial",
@@ -935,6 +959,7 @@ func evalPartial(node *jparse.PartialNode, data reflect.Value, env *environment)
 		args:    node.Args,
 		context: data,
 		env:     env,
+		bound:   bound,
 	}
 
 	return reflect.ValueOf(f), nil
